@@ -49,48 +49,51 @@ Example ex_period_partial :
   eval_text_span sp_quarters "X[`2001`:`2002Q3`:3]" = Ret "X[4:11:3]".
 Proof. repeat split; vm_compute; reflexivity. Qed.
 
-(* ---- finding #15: with a backtick anywhere in the expression EVERY bracket goes through the callback ---- *)
-Example ex_positional_slice_shifted : eval_text_span sp_years "X[1:3] + Y[`2001`]" = Ret "X[1:4:] + Y[1]".
+(* ---- since fix 24bdfbd (finding #15 repaired): a bracket without a backtick is left exactly as written, whatever else the
+        expression contains; only brackets containing a backtick go through the callback ---- *)
+Example ex_positional_slice_untouched : eval_text_span sp_years "X[1:3] + Y[`2001`]" = Ret "X[1:3] + Y[1]".
 Proof. vm_compute. reflexivity. Qed.
-Example ex_positional_slice_emptied : eval_text_span sp_years "X[:-1] + Y[`2001`]" = Ret "X[:0:] + Y[1]".
+Example ex_positional_open_slice_untouched : eval_text_span sp_years "X[:-1] + Y[`2001`:`2004`]" = Ret "X[:-1] + Y[1:5:]".
 Proof. vm_compute. reflexivity. Qed.
-Example ex_positional_arith_rejected : eval_text_span sp_years "X[a-1] + Y[`2001`]" = Raise ValueError.
+Example ex_positional_arith_untouched : eval_text_span sp_years "X[a-1] + Y[`2001`]" = Ret "X[a-1] + Y[1]".
 Proof. vm_compute. reflexivity. Qed.
-Example ex_list_literal_rejected : eval_text_span sp_years "[1, 2][0] + Y[`2001`]" = Raise ValueError.
+Example ex_list_literal_untouched : eval_text_span sp_years "[1, 2][0] + Y[`2001`]" = Ret "[1, 2][0] + Y[1]".
 Proof. vm_compute. reflexivity. Qed.
-(* ... whereas the same positional brackets are left alone when no backtick occurs *)
-Example ex_positional_untouched_without_backtick :
-  eval_text_span sp_years "X[1:3] + X[:-1] + X[a-1] + [1, 2][0]" = Ret "X[1:3] + X[:-1] + X[a-1] + [1, 2][0]".
+(* spelling and inner whitespace are kept too (before the fix: canonical decimal) *)
+Example ex_positional_spelling_kept : eval_text_span sp_years "X[ -1 ] + X[+2] + X[1:] + X[007] + Y[`2001`]" = Ret "X[ -1 ] + X[+2] + X[1:] + X[007] + Y[1]".
 Proof. vm_compute. reflexivity. Qed.
-(* plain integer indexes and open-stop slices survive (in canonical spelling) *)
-Example ex_positional_index_survives : eval_text_span sp_years "X[ -1 ] + X[+2] + X[1:] + Y[`2001`]" = Ret "X[-1] + X[2] + X[1::] + Y[1]".
+(* a nested positional subscript next to a label bracket *)
+Example ex_nested_positional_untouched : eval_text_span sp_years "X[N[1]] + Y[`2001`]" = Ret "X[N[1]] + Y[1]".
 Proof. vm_compute. reflexivity. Qed.
 
-(* the statement "purely positional slices keep their ordinary Python meaning wherever they appear" is false of the
-   callback: for EVERY span (any has / locate) the positional contents 1:3 and :-1 are rewritten to subscripts that
-   select other positions of a length-5 series *)
-Theorem positional_rewritten_refuted :
-  exists (n : nat) (g1 g2 : string),
-    has_char ch_tick g1 = false /\ has_char ch_tick g2 = false /\
-    forall has locate,
-      (exists g1', resolve_group has locate g1 = Ret ("[" ++ g1' ++ "]") /\ index_sem n g1' <> index_sem n g1) /\
-      (exists g2', resolve_group has locate g2 = Ret ("[" ++ g2' ++ "]") /\ index_sem n g2' <> index_sem n g2).
-Proof.
-  exists 5%nat, "1:3", ":-1". split; [reflexivity|]. split; [reflexivity|]. intros has locate. split.
-  - exists "1:4:". split; [reflexivity|]. vm_compute. discriminate.
-  - exists ":0:". split; [reflexivity|]. vm_compute. discriminate.
-Qed.
+(* ---- mixed brackets (a label and a plain integer in one slice) still reach the callback: the plain STOP is incremented ---- *)
+Example ex_mixed_label_start_int_stop : eval_text_span sp_years "X[`2001`:3]" = Ret "X[1:4:]" /\ index_sem 5 "1:4:" = Some [1; 2; 3]%nat.
+Proof. split; vm_compute; reflexivity. Qed.
+Example ex_mixed_int_start_label_stop : eval_text_span sp_years "X[1:`2003`]" = Ret "X[1:4:]".
+Proof. vm_compute. reflexivity. Qed.
+Example ex_mixed_non_literal : eval_text_span sp_years "X[`2001`:2-1]" = Raise ValueError.
+Proof. vm_compute. reflexivity. Qed.
 
-(* the same at expression level, through eval's first step *)
-Theorem positional_rewritten_in_expression_refuted :
-  exists (sp : span_model) (e e' : string),
-    eval_text_span sp e = Ret e' /\ e' <> e /\
-    (* the only backticked bracket is the last one; the first, purely positional, bracket changed its meaning *)
-    e = "X[1:3] + Y[`2001`]" /\ e' = "X[1:4:] + Y[1]" /\ index_sem 5 "1:3" = Some [1; 2]%nat /\ index_sem 5 "1:4:" = Some [1; 2; 3]%nat.
-Proof.
-  exists sp_years, "X[1:3] + Y[`2001`]", "X[1:4:] + Y[1]".
-  split; [vm_compute; reflexivity|]. split; [discriminate|]. repeat split; vm_compute; reflexivity.
-Qed.
+(* ---- kept finding (label-not-alone-in-its-bracket): the regular expression ends a bracket at the FIRST closing bracket and
+        takes everything before it as one item, so a label inside a nested subscript, in parentheses or in a tuple is not
+        found (KeyError), and a label slice broken across lines is not matched at all (the backticks stay: SyntaxError) ---- *)
+Theorem label_in_nested_bracket_refuted :
+  exists (sp : span_model) (a : string) (p : Z),
+    span_has sp (LInt 2001) = true /\ span_locate sp (LInt 2001) = Ret (LocI PyInt p) /\ a = "2001" /\
+    eval_text_span sp ("X[N[`" ++ a ++ "`]]") = Raise KeyError /\
+    eval_text_span sp ("X[(`" ++ a ++ "`)]") = Raise KeyError /\
+    eval_text_span sp ("X[`" ++ a ++ "`]") = Ret "X[1]".
+Proof. exists sp_years, "2001", 1. repeat split; vm_compute; reflexivity. Qed.
+
+Theorem label_slice_across_lines_refuted :
+  exists (sp : span_model) (e : string),
+    e = "(X[`2001`:" ++ String ch_nl "`2003`])" /\ eval_text_span sp e = Ret e /\ has_char ch_tick e = true /\
+    eval_text_span sp "(X[`2001`:`2003`])" = Ret "(X[1:4:])".
+Proof. exists sp_years, ("(X[`2001`:" ++ String ch_nl "`2003`])"). repeat split; vm_compute; reflexivity. Qed.
+
+(* newlines around a label (not inside the slice) are whitespace to the regular expression *)
+Example ex_label_on_its_own_line : eval_text_span sp_years ("(X[" ++ String ch_nl "`2001`" ++ String ch_nl "])") = Ret "(X[1])".
+Proof. vm_compute. reflexivity. Qed.
 
 (* ---- the shape hypotheses of rewrite_bracket are satisfiable ---- *)
 Example ex_wf_group : wf_group "`2001`:`2003`" = true /\ wf_group "1:3" = true /\ wf_group "a b" = true /\
@@ -100,7 +103,8 @@ Example ex_ws : str_all is_re_space "  " = true /\ str_all is_re_space "" = true
 Proof. split; vm_compute; reflexivity. Qed.
 
 (* ---- malformed brackets ---- *)
-Example ex_empty_bracket : eval_text_span sp_str "X[]`" = Raise AttributeError /\ eval_text_span sp_str "X[ ]`" = Raise AttributeError.
+(* `[]` / `[ ]`: no group, no backtick: copied (before the fix: AttributeError from None.split) *)
+Example ex_empty_bracket : eval_text_span sp_str "X[]`" = Ret "X[]`" /\ eval_text_span sp_str "X[ ]`" = Ret "X[ ]`".
 Proof. split; vm_compute; reflexivity. Qed.
 Example ex_empty_bracket_swallows : eval_text_span sp_str "X[]+Y[`a`]" = Raise KeyError.     (* group(1) = "]+Y[`a`" *)
 Proof. vm_compute. reflexivity. Qed.
